@@ -968,6 +968,31 @@ theorem holds_model (i : SInput) : holds i (modelC i) = true := by
   simp only [holds, clauses, List.all_cons, List.all_nil, Bool.and_true, Bool.and_eq_true]
   exact ⟨c_oneAtATime i, c_delivered i, c_complete i, c_brokenRunner i, c_abort i, c_terminates i⟩
 
+/-- the specification holds of the model's traces for every history of runs on one suite object -/
+theorem holds_modelH (h : HInput) : holdsH h (modelH h) = true := by
+  simp only [holdsH, clausesH, List.all_map, List.all_eq_true]
+  intro c hc
+  simp only [Function.comp, modelH, List.length_map, beq_self_eq_true, Bool.true_and, List.all_eq_true]
+  intro p hp
+  have hm := holds_model p.1
+  simp only [holds, List.all_eq_true] at hm
+  have hp2 : p.2 = modelC p.1 := by
+    obtain ⟨k, hk, hget⟩ := List.getElem_of_mem hp
+    simp only [List.getElem_zip, List.getElem_map] at hget
+    rw [← hget]
+  rw [hp2]
+  exact hm c hc
+
+/-- **C13 (runs on one suite object are independent)** — in a history of `run()` calls on one `ConcurrentTestSuite` /
+`ConcurrentStreamTestSuite` object the trace of every run - what its caller's result receives, how `run()` ends, who is started,
+joined, told to stop - is the trace of that same run (same sub-suites, fault plan, schedule) on a FRESH suite object: it does not
+depend on how many runs went before, on what they did, on whether they were aborted, nor on what comes after. -/
+theorem C13_runs_independent (pre post : HInput) (i : SInput) :
+    (modelH (pre ++ i :: post))[pre.length]? = some (modelC i) ∧ modelH [i] = [modelC i] := by
+  constructor
+  · simp [modelH]
+  · rfl
+
 /-! ## readable statements -/
 
 /-- states reachable by some schedule -/
